@@ -16,6 +16,11 @@ NA = {
 }
 
 CLAIMED = {
+ 'C17': dict(
+   technique='deterministic simulation of the disk: real File/TextFile/Directory code and real glibc stdio over an in-memory VFS (fopencookie streams whose read/write/seek/close callbacks are the simulated system calls, wrapped stat/rename/unlink/...), seeded operation histories per path checked against an in-memory model by fresh reader objects after every step; fault injection attached to operations (ENOSPC after k bytes, EIO at offset k, open failures, rename EXDEV forcing the copy-and-delete fallback, rename failure) with a prefix-consistency relaxation; knob-randomised line chunk',
+   text='Seeded search over histories (put/write/append/stream operators/TextFile write, append, printf/copy/move/remove/BOM files) with sizes boundary-biased around the 255-byte line chunk (randomised 2..300) and the 65536-byte copy block, to 200000 bytes quick and 16 MiB thorough; LF/CRLF/lone-CR texts with and without final newline; UTF-8/UTF-16LE/BE BOM files of arbitrary scalar values incl. non-BMP. Exact oracle without faults; under faults results must be prefix-consistent. Evidence, not proof.',
+   ref='DESIGN.md 2.6, 5 (C17), 5x',
+   note='Trusted: VFS stub semantics (appendix A), glibc stdio is real; process crashes with loss of unflushed buffers are not injected (no property quantifies over crash points); BOM texts are CR-free (the UTF-16 reader folds CRLF, fenced out).'),
  'C11': dict(
    technique='deterministic simulation with fault injection: the real WebSocket client and server on the simulated TCP stub (seeded fragmentation, short sends, latency, small send buffers) against each other and against an independent RFC 6455 framer/deframer with independent SHA-1/Base64 (both roles; 1-4 fragments, mask keys with zero bytes, pings before messages and between fragments, non-minimal length forms); hostile frame streams with reserved opcodes, RSV bits and absurd 64-bit lengths, cut at every offset; sequence-equality oracle per direction, framing-rule oracle on emitted bytes, AddressSanitizer, bounded termination',
    text='Seeded search over message plans (lengths boundary-biased around 125/126/127 and 65535/65536/65537, to 70000 quick and 4 MiB thorough) x fragmentations x network behaviour x schedules. Found and fixed two genuine defects (64-bit lengths cast to int; ping between fragments ends the message). Evidence, not proof.',
